@@ -118,6 +118,12 @@ def r1(ctx):
                 if src & flow and s2["pl"]["l"] not in flow:
                     flow.add(s2["pl"]["l"])
                     changed = True
+            # values also travel through pure calls (`cond.then_some((a, pos))`, `Some(..)`-like constructors, tuple helpers)
+            for cs2 in body.calls():
+                al = {a["pl"]["l"] for a in cs2.args if a.get("k") in ("copy", "move")}
+                if al & flow and cs2.dest and cs2.dest["l"] not in flow:
+                    flow.add(cs2.dest["l"])
+                    changed = True
         bp_op = ops_ = ops["bit_pos"] if False else dict(zip(s["rv"]["fields"], s["rv"]["ops"]))["bit_pos"]
         ok = bp_op.get("k") in ("copy", "move") and bp_op["pl"]["l"] in flow
         detail = {"side": side, "extension_bit_call": ext.loc(), "position_reads_before_it": len(early)}
@@ -175,6 +181,28 @@ def arm_writes(P, b, arm, O):
     return writes, calls
 
 
+def helper_effects(P, body, cs, depth=1):
+    """effects of a private same-type helper called from an arm (`Scope::write_presence_bit(buffer, range, ..)`): the fields
+    it writes through its `&mut` parameters and the bitmap accesses it performs, in the vocabulary of the arms"""
+    wr, ca = set(), set()
+    fn = cs.fn or {}
+    if not fn.get("resolved_local", fn.get("local")) or not (fn.get("impl_self_ty") or "").split("<")[0].endswith("Scope"):
+        return wr, ca
+    h = P.resolve_callee(body.crate, cs)
+    if h is None or h.name in ("write_into_field", "read_from_field"):
+        return wr, ca
+    for hb in [h] + P.closures_of(h):
+        for bb, j, st in hb.all_statements():
+            if st["k"] == "assign" and any(p["k"] == "deref" for p in st["pl"]["p"]):
+                proj = ".".join(p["n"] for p in st["pl"]["p"] if p["k"] == "field")
+                if proj:
+                    wr.add("range." + proj if not proj.startswith("range") else proj)
+        for c2 in hb.calls():
+            if c2.name in ("with_write_position_at", "with_read_position_at"):
+                ca.add("range.start")
+    return wr, ca
+
+
 def r2(ctx):
     rule = "C03.R2"
     ctx.rule(rule, "per-variant cursor discipline: for each Scope variant the arms of write_into_field and read_from_field update the same "
@@ -193,9 +221,11 @@ def r2(ctx):
             if len(a.path) != 1 or a.path[0][0] != "$1":
                 continue
             wr, ca = arm_writes(P, b, a, O)
-            # closures in the arm (reader uses .map(|range| ..))
-            for c in P.closures_of(b):
-                pass
+            for cs in b.calls():
+                if cs.bb in a.blocks:
+                    hw, hc = helper_effects(P, b, cs)
+                    wr |= hw
+                    ca |= hc
             res.setdefault(a.path[0][1], {})[side] = (wr, ca)
     # the reader's ExtensibleSequence arm updates range.start inside a closure: collect closure writes by line proximity is brittle,
     # so closures are attributed to the arm whose blocks create them
@@ -221,6 +251,9 @@ def r2(ctx):
                     for cs in c.calls():
                         if cs.name in ("with_write_position_at", "with_read_position_at"):
                             ca.add("range.start")
+                        hw, hc = helper_effects(P, c, cs)
+                        wr |= hw
+                        ca |= hc
     n = 0
     for v in ("OptBitField", "AllBitField", "ExtensibleSequence", "ExtensibleSequenceEmpty"):
         if v not in res or len(res[v]) != 2:
@@ -387,15 +420,24 @@ def r5(ctx):
     ctx.floor(rule, n, "C03.R5.constants")
     # the take_while bound is the extension marker
     cl = P.closures_of(ic)
-    cm = [c for body in cl for c in F.comparisons(body, X.Origins(body, P))]
-    tw = [c for c in cm if "extension_after_field" in (c.lhs + c.rhs)]
+    cm = []
+    resolved = {}
+    for body in cl:
+        caps = R.closure_captures(P, ic, body)
+        for c in F.comparisons(body, X.Origins(body, P)):
+            # a bound hoisted into a local of the emitter (`let last_root = extension_after_field.unwrap_or(MAX)`) reaches the
+            # closure as a captured variable: look at what was captured
+            resolved[id(c)] = (F.rd(R.resolve_upvars(c.lex, caps)) if c.lex is not None else "",
+                               F.rd(R.resolve_upvars(c.rex, caps)) if c.rex is not None else "")
+            cm.append(c)
+    tw = [c for c in cm if "extension_after_field" in "".join(resolved[id(c)]) or "extension_after_field" in (c.lhs + c.rhs)]
     if not tw:
         ctx.fail(rule, "STD_OPTIONAL_FIELDS#bound", "the count of optional fields is not limited to the fields up to the extension marker",
                  "%s:%d" % (ic.file, ic.line), {"comparisons": [c.raw for c in cm]})
     else:
         c = tw[0]
         # index <= extension_after  <=>  after - index boundary 0  <=>  index - after boundary 1
-        after_left = "extension_after_field" in c.lhs
+        after_left = "extension_after_field" in c.lhs or "extension_after_field" in resolved[id(c)][0]
         ok = c.kind == "b" and ((after_left and c.boundary == 0) or (not after_left and c.boundary == 1))
         if not ok:
             ctx.fail(rule, "STD_OPTIONAL_FIELDS#bound", "optional root fields are counted with `%s` instead of index <= extension_after_field" % c.raw,
